@@ -463,4 +463,96 @@ theorem k_matrixGetBottomRightOnBit_eq (m : WMat) (fuel : Nat) (hf : m.words.len
     · have : ((m.words[k] : Int) == 0) = false := by simp; omega
       simp [hz, this]
 
+/-! ### GetEnclosingRectangle -/
+
+/-- the scan state of `GetEnclosingRectangle` as the four Go ints -/
+abbrev enclR (e : WMat.Encl) : Int × Int × Int × Int := ((e.left : Int), (e.top : Int), e.right, e.bottom)
+
+when_kernel Gzx.Gen.K16b.matrixGetEnclosingRectangle in
+/-- `BitMatrix.GetEnclosingRectangle()` = `WMat.getEnclosingRectangle` (words below 2^32, fuel ≥ 33): for every non-zero word the
+    four bounds are updated — top/bottom by the row, left by the lowest set bit when the word starts left of `left`, right by
+    the highest set bit when the word ends right of `right` — and `nil` when nothing was found -/
+theorem k_matrixGetEnclosingRectangle_eq (m : WMat) (h32 : ∀ w ∈ m.words, w < W32) (fuel : Nat) (hf : 33 ≤ fuel) :
+    Gen.K16b.matrixGetEnclosingRectangle fuel m.width m.height m.rowSize (words m.words) =
+      expPt (WMat.getEnclosingRectangle m) := by
+  simp only [Gen.K16b.matrixGetEnclosingRectangle, WMat.getEnclosingRectangle, expPt]
+  generalize hF : (fun (e : WMat.Encl) (y : Nat) => (List.range m.rowSize).foldlM (fun e x32 => do
+        let theBits ← wordAt m.words (y * m.rowSize + x32)
+        pure (WMat.enclStep y x32 theBits e)) e) = F
+  rw [List.range_eq_range', show (((m.width : Int), (m.height : Int), (-1 : Int), (-1 : Int))) = enclR ⟨m.width, m.height, -1, -1⟩ from rfl,
+    loop_up_fold' enclR F 0 m.height ⟨m.width, m.height, -1, -1⟩ rfl (by rw [tripUp_one]; omega) (by omega), ofRes_thenR]
+  · cases (List.range' 0 m.height).foldlM F ⟨m.width, m.height, -1, -1⟩ with
+    | error e => rfl
+    | ok e =>
+      simp only [Except.map, enclR]
+      by_cases hr : e.right < (e.left : Int) ∨ e.bottom < (e.top : Int)
+      · resolve_ifs
+      · resolve_ifs
+        simp only [List.map_cons, List.map_nil, Int.ofNat_eq_natCast]
+        rw [Int.toNat_of_nonneg (by omega), Int.toNat_of_nonneg (by omega)]
+  · subst hF
+    intro y _ _ e
+    simp only [Gen.K16b.matrixGetEnclosingRectangle_body1, enclR]
+    rw [List.range_eq_range', show (((e.left : Int), (e.top : Int), e.right, e.bottom)) = enclR e from rfl,
+      loop_up_fold' enclR (fun e x32 => do
+        let theBits ← wordAt m.words (y * m.rowSize + x32)
+        pure (WMat.enclStep y x32 theBits e)) 0 m.rowSize e rfl (by rw [tripUp_one]; omega) (by omega)]
+    · exact ofRes_thenC_next _
+    · intro x32 _ _ e
+      simp only [Gen.K16b.matrixGetEnclosingRectangle_body2, enclR]
+      rw [idxC m.words (y * m.rowSize + x32) _ (by omega)]
+      simp only [bind, Except.bind]
+      cases hw : wordAt m.words (y * m.rowSize + x32) with
+      | error er => rfl
+      | ok w =>
+        have hwlt : w < W32 := by
+          unfold wordAt at hw
+          cases hg : m.words[y * m.rowSize + x32]? with
+          | none => rw [hg] at hw; cases hw
+          | some v =>
+            rw [hg] at hw; injection hw with hw; subst hw
+            have := List.getElem?_eq_some_iff.mp hg
+            rw [← this.2]; exact h32 _ (List.getElem_mem _)
+        simp only [pure, Except.pure, Except.map, ofRes_ok, WMat.enclStep]
+        by_cases hz : w = 0
+        · subst hz; simp [enclR]
+        · have hne : ((w : Int) != 0) = true := by simp; omega
+          simp only [hne, if_true, hz, ne_eq, not_false_eq_true]
+          have hlow : whileLoop (Gen.K16b.matrixGetEnclosingRectangle_body3 (w : Int)) fuel 0 =
+              (.brk ((lowBit w : Nat) : Int) : Ctl Int (List Int)) := by
+            rw [show (0 : Int) = ((0 : Nat) : Int) from rfl]
+            refine lowBit_while w hz hwlt _ ?_ 32 0 fuel (by omega) (by omega) (by omega)
+            intro bit hbit
+            simp only [Gen.K16b.matrixGetEnclosingRectangle_body3]
+            have e1 : wrap 64 (31 - (bit : Int)) = ((31 - bit : Nat) : Int) := by gonorm; omega
+            rw [e1, ishl_natCast, wrap_natCast]
+            have e3 : (w <<< (31 - bit)) % 2 ^ 32 = shl32 w (31 - bit) := rfl
+            rw [e3]
+            by_cases hs : shl32 w (31 - bit) = 0
+            · simp [hs]
+            · have : ((shl32 w (31 - bit) : Int) == 0) = false := by simp; omega
+              simp only [this, Bool.false_eq_true, if_false, hs]
+          have hhigh : whileLoop (Gen.K16b.matrixGetEnclosingRectangle_body4 (w : Int)) fuel 31 =
+              (.brk ((highBit w : Nat) : Int) : Ctl Int (List Int)) := by
+            rw [show (31 : Int) = ((31 : Nat) : Int) from rfl]
+            refine highBit_while w hz _ ?_ 32 31 fuel (by omega) (by omega) (by omega)
+            intro bit hbit
+            simp only [Gen.K16b.matrixGetEnclosingRectangle_body4]
+            have e1 : wrap 64 (bit : Int) = (bit : Int) := by gonorm
+            rw [e1, ishr_natCast]
+            by_cases hs : w >>> bit = 0
+            · have hb0 : bit ≠ 0 := by
+                intro h0; subst h0; simp only [Nat.shiftRight_zero] at hs; exact hz hs
+              have e2 : (bit : Int) - 1 = ((bit - 1 : Nat) : Int) := by omega
+              simp [hs, e2]
+            · have : (((w >>> bit : Nat) : Int) == 0) = false := beq_eq_false_iff_ne.mpr (Int.natCast_ne_zero.mpr hs)
+              simp only [this, Bool.false_eq_true, if_false, hs]
+          simp only [hlow, hhigh, brk_thenC]
+          by_cases c1 : y < e.top <;> by_cases c2 : (y : Int) > e.bottom <;>
+            by_cases c3 : x32 * 32 < e.left <;> by_cases c4 : x32 * 32 + lowBit w < e.left <;>
+            by_cases c5 : ((x32 * 32 + 31 : Nat) : Int) > e.right <;>
+            by_cases c6 : ((x32 * 32 + highBit w : Nat) : Int) > e.right <;>
+            simp (disch := omega) only [decide_eq_true_eq, if_pos, if_neg, next_thenC] <;>
+            (try (congr 1)) <;> (try omega) <;> (try (simp only [Prod.mk.injEq]; omega))
+
 end Gzx.Obligations.K16bMat
